@@ -13,3 +13,7 @@ open Just.C11
 #print axioms sigil_slice_valid
 #print axioms cook_unwrap_safe
 #print axioms cook_literal_unwrap_safe
+#print axioms parser_loop_progress
+#print axioms parser_loop_bounded
+#print axioms parser_needs_no_fuel
+#print axioms expression_parser_needs_no_fuel
